@@ -307,6 +307,18 @@ def _observe(t, db, model, case, info):
     trav_root = impl("traverse-only-partial-errors", t.traverse, ())
     expect_eq("root_node-equals-traverse-empty", root_node, trav_root, "root_node vs traverse(())")
 
+    # A caller may do what it likes with a result it was given (e.g. blank out the children it
+    # has handled): later answers must still describe the trie. Scribble on a few results first.
+    for path in paths[:: max(1, len(paths) // 6)]:
+        r0 = impl("traverse-only-partial-errors", t.traverse, path, allowed=(TraversedPartialPath,))
+        node0 = r0.exc.node if isinstance(r0, Raised) else r0
+        if isinstance(getattr(node0, "raw", None), list):
+            for i in range(len(node0.raw)):
+                node0.raw[i] = b"" if i else b"\x20"
+            info.label("scribbled-on-returned-node")
+    rn = impl("root_node", lambda: t.root_node)
+    if isinstance(getattr(rn, "raw", None), list) and len(rn.raw) == 17:
+        rn.raw[0:16] = [b""] * 16
     for path in paths:
         loc = ref.locate(path)
         got = impl("traverse-only-partial-errors", t.traverse, path, allowed=(TraversedPartialPath,))
